@@ -49,6 +49,7 @@ void  vf_install_crash_handlers(void (*report)(int sig, const char *where));
 const char *vf_crash_where(void);  /* symbolised top frames of the faulting stack */
 void  vf_watchdog(int seconds);    /* SIGALRM based */
 int   slu_default_sp_ienv(int);
+extern __thread int vf_ie_count, vf_ie_last; extern __thread char vf_ie_name[16];   /* input_error reports: how many, last parameter number, last routine name */
 extern volatile long *vf_progress; /* shared page: [0]=current case index, [1]=phase */
 
 /* --------------------------------------------------------------- dense model */
